@@ -130,6 +130,79 @@ def _work_long(task) -> core.Part:
     return p
 
 
+def _cmp(p, cfg, S, label, how, chunks, ref):
+    got = observe(cfg, chunks)
+    p.add("executions")
+    p.add("events", len(chunks))
+    if got != ref:
+        p.viol("chunking", f"chunking:{X.cfg_name(cfg)}:{label}:{how}", f"[{X.cfg_name(cfg)}] {label}: one-shot returns {_fmt(ref)[:2]!r:.200} but {how} returns {_fmt(got)[:2]!r:.200}",
+               {"cfg": list(cfg), "stream": S.hex(), "chunks_a": [S.hex()], "chunks_b": [c.hex() for c in chunks]}, size=len(S))
+
+
+def _work_mid(task) -> core.Part:
+    """Mid-size frames (100-300 octets): every pair of cuts with the first cut in this task's range."""
+    cfg, label, S, lo, hi = task
+    p = core.Part()
+    n = len(S)
+    ref = observe(cfg, [S])
+    p.add("executions")
+    if lo == 1:
+        p.add("nontrivial")
+        _cmp(p, cfg, S, label, "bytewise", X.bytewise(S), ref)
+        for k in (2, 3, 7, 16, 32, 63, 64, 65, 100, 128):
+            _cmp(p, cfg, S, label, f"fixed{k}", X.fixed(S, k), ref)
+    for i in range(lo, min(hi, n)):
+        _cmp(p, cfg, S, label, f"cut{i}", X.split(S, (i,)), ref)
+        for j in range(i + 1, n):
+            _cmp(p, cfg, S, label, f"cut{i},{j}", X.split(S, (i, j)), ref)
+        if p.full("chunking"):
+            p.capped = True
+            break
+    return p
+
+
+def _work_sweep(task) -> core.Part:
+    """Frames covering every octet value in every check-sequence position; one-shot vs octet-wise vs every single cut."""
+    cfg, lo, hi = task
+    p = core.Part()
+    pool = X.frame_pool()
+    from mc.ref import hdlc as RH
+    for label, fr in X.fcs_sweep_frames()[lo:hi]:
+        S = b"\x7e" + RH.wire(fr, cfg[0]) + b"\x7e\x7e" + RH.wire(pool["short"], cfg[0]) + b"\x7e"
+        ref = observe(cfg, [S])
+        p.add("executions")
+        if ref:
+            p.add("nontrivial")
+        _cmp(p, cfg, S, label, "bytewise", X.bytewise(S), ref)
+        for i in range(1, len(S)):
+            _cmp(p, cfg, S, label, f"cut{i}", X.split(S, (i,)), ref)
+        if p.full("chunking"):
+            p.capped = True
+            break
+    return p
+
+
+def _work_aligned(task) -> core.Part:
+    """2047-octet frame: pairs of cuts aligned with escape/flag octets, middle chunk sizes around powers of two."""
+    cfg = task
+    p = core.Part()
+    pool = X.frame_pool()
+    from mc.ref import hdlc as RH
+    from mc.props.C02 import CONTENTS
+    for cname in ("mix5e5d", "ramp"):
+        fr = RH.build_frame(0xA, 0, b"\x01", b"\x21", 0x13, CONTENTS[cname](2038))
+        S = b"\x7e" + RH.wire(fr, cfg[0]) + b"\x7e" + RH.wire(pool["short"], cfg[0]) + b"\x7e"
+        ref = observe(cfg, [S])
+        p.add("executions")
+        if ref:
+            p.add("nontrivial")
+        marks_from = [0, len(S) // 2]
+        for base in marks_from:
+            for (i, j) in X.escape_aligned_cuts(S[base:], 6):
+                _cmp(p, cfg, S, f"max2047({cname})+short", f"cut{base + i},{base + j}", X.split(S, (base + i, base + j)), ref)
+    return p
+
+
 def main(run: core.Run) -> int:
     q = run.quick
     run.rule = ("graph: every reachable reader state (full snapshot digest) x every event, plus from every state every chunk of 2..k "
@@ -137,7 +210,9 @@ def main(run: core.Run) -> int:
                 "(configuration, stream) whose one-shot run returns >=1 frame, plus graph edges that return a frame")
     N, NS, NT = (8, 7, 6) if q else (10, 8, 7)
     run.bounds = {"graph_octets": f"depth {N} over Sigma_h (no stuffing), depth {NS} over Sigma_h+ (stuffing)",
-                  "graph_tokens": f"depth {NT} over the 8-token alphabet", "deviations": "<=1 edit" if q else "<=2 edits on single frames, <=1 otherwise"}
+                  "graph_tokens": f"depth {NT} over the 8-token alphabet", "deviations": "<=1 edit" if q else "<=2 edits on single frames, <=1 otherwise",
+                  "mid_size": "120-octet" + ("" if q else " and 300-octet") + " frames with flag/escape octets in the information field: every pair of cuts, fixed sizes up to 128",
+                  "check_sequence_sweep": "685 frames covering every octet value in every FCS/HCS position: every single cut", "escape_aligned": "2047-octet frames: cut pairs aligned with 7D/7E, middle chunk 1..1024"}
     parts = []
     for cfg in X.CFGS:
         alpha = X.SIGMA_HP if cfg[0] else X.SIGMA_H
@@ -155,6 +230,18 @@ def main(run: core.Run) -> int:
     run.log(f"E3: {len(e3)} base streams")
     run.merge(par.pmap(_work_e3, e3, seed=run.seed))
     run.merge(par.pmap(_work_long, list(X.CFGS), seed=run.seed))
+    mid = []
+    for cfg in X.CFGS:
+        for label, S in X.midsize_streams(cfg[0]):
+            if q and "300" in label:
+                continue
+            step = 8
+            mid += [(cfg, label, S, lo, lo + step) for lo in range(1, len(S), step)]
+    run.log(f"mid-size frames, every pair of cuts: {len(mid)} partitions")
+    run.merge(par.pmap(_work_mid, mid, seed=run.seed))
+    nsw = len(X.fcs_sweep_frames())
+    run.merge(par.pmap(_work_sweep, [(cfg, lo, lo + 43) for cfg in X.CFGS for lo in range(0, nsw, 43)], seed=run.seed))
+    run.merge(par.pmap(_work_aligned, list(X.CFGS), seed=run.seed))
     tot = run.total
     tot.sample({"cfg": "stuffing=0,abort=0", "stream": "7e" + X.F7.hex() + "7e", "chunkings": ["one-shot", "octet-wise", "cut@k for k=1..8"],
                 "all_return": [X.F7.hex()]})
